@@ -44,6 +44,17 @@ PROPS["C08"] = dict(
     trusted_base=["per-bit inner loops of the range operations and countSetBits are modelled as word masks / population count (tied by K on Count after every op)"],
     assumptions=["indexes are >= 0 (negative indexes call atexit.Exit and are outside the property's quantifier)", "int is 64 bits"],
 )
+PROPS["C06"] = dict(
+    n_quick=4000, n_thorough=400000, shards=8,
+    rule="cases: histories of 1-300 Insert/Remove over key spaces of size 1,2,3,5,10,30,1000 (heavy duplication to none), ascending and "
+         "descending runs, removal of absent keys, drain-to-empty-and-regrow; values are unique serials so insertion order is visible. After "
+         "EVERY operation: Count, shape and colours via the public Dump(), full Traverse, ReverseTraverse with an early-stopping visitor, "
+         "First, Last, and for 3 probe keys Get, TraverseStartingAt (early stop) and ReverseTraverseStartingAt; the number of compare calls of "
+         "the operation. non-trivial = history of >= 3 operations; distinct = distinct case text",
+    trivial_class=r"(trivial|^bad$|^exn$)",
+    trusted_base=["Dump() output parsed from captured stdout gives the implementation's shape; values are ints"],
+    assumptions=["the comparison function is a total preorder (sign-antisymmetric, transitive); the harness uses integer order"],
+)
 
 # properties not (yet) claimed, with the reason; an entry is dropped automatically once the property is in PROPS
 NOT_APPLICABLE = {
@@ -52,6 +63,16 @@ NOT_APPLICABLE = {
 }
 
 MANIFEST_TEXT = {
+    "C06": dict(
+        level_text="Proof: for every history of Insert/Remove and every total preorder, the model tree (zipper transcription of the CLRS "
+                   "fix-ups as written) never gets stuck, its in-order sequence equals the stably ordered multimap spec, and the red-black "
+                   "invariants + black root + key order hold after every operation; Traverse/ReverseTraverse/TraverseStartingAt/"
+                   "ReverseTraverseStartingAt/Get/First/Last/Count equal their list specifications incl. early stop; height and the number of "
+                   "comparisons are <= 2*log2(n+1)(+1). The model reproduces the implementation's exact shape and colours (Dump) after every "
+                   "operation of every sampled history; the spec list, an extracted red-black checker and the comparison bound are also "
+                   "evaluated on the implementation's own observations.",
+        level_note="Trusted: Coq kernel, extraction, drivers, harness; model hand-written, tied by correspondence (shape-exact) on sampled histories.",
+        technique="Coq proof (refinement + invariant by induction over histories) on a hand-written Gallina model + differential correspondence check"),
     "C08": dict(
         level_text="Proof: the model's State is set membership; Set/Clear/Flip have exactly the set-theoretic effect on every index; Trim, "
                    "EnsureCapacity, Data, Copy/Clone leave the set and the count unchanged, Data is canonical, Reset empties -- Coq theorems for "
